@@ -155,11 +155,21 @@ class _LamSubst(ast.NodeTransformer):
 
 
 class _Renamer(ast.NodeTransformer):
-    def __init__(self, mapping: Dict[str, ast.expr], prefix: str, locals_: set, lambdas: Optional[Dict[str, ast.Lambda]] = None):
+    def __init__(self, mapping: Dict[str, ast.expr], prefix: str, locals_: set, lambdas: Optional[Dict[str, ast.Lambda]] = None, vararg=None):
         self.mapping, self.prefix, self.locals = mapping, prefix, locals_
         self.lambdas = lambdas or {}
+        self.vararg = vararg or (None, [])
 
     def visit_Call(self, n: ast.Call):
+        if self.vararg[0] is not None:
+            # f(a, *values) with the caller's extra arguments in place of *values
+            newargs = []
+            for a in n.args:
+                if isinstance(a, ast.Starred) and isinstance(a.value, ast.Name) and a.value.id == self.vararg[0]:
+                    newargs += [copy.deepcopy(x) for x in self.vararg[1]]
+                else:
+                    newargs.append(a)
+            n.args = newargs
         self.generic_visit(n)
         f = n.func
         if isinstance(f, ast.Name) and f.id in self.lambdas:
@@ -236,7 +246,15 @@ class _Helper:
         self.params = [x.arg for x in a.posonlyargs + a.args]
         self.static = "staticmethod" in decos or (cls is not None and (not self.params or self.params[0] not in ("self", "cls")))
         self.is_method = cls is not None and not self.static and "classmethod" not in decos
-        self.supported = not (a.vararg or a.kwarg or a.kwonlyargs) and all(d in ("staticmethod",) for d in decos)
+        self.vararg = a.vararg.arg if a.vararg else None
+        vararg_ok = True
+        if self.vararg:
+            # `*values` is supported when the body only ever passes it on as `f(..., *values)`
+            starred = {id(x.value) for x in ast.walk(fn) if isinstance(x, ast.Starred) and isinstance(x.value, ast.Name) and x.value.id == self.vararg}
+            in_call = {id(y.value) for c in ast.walk(fn) if isinstance(c, ast.Call) for y in c.args if isinstance(y, ast.Starred) and isinstance(y.value, ast.Name)}
+            uses = [x for x in ast.walk(fn) if isinstance(x, ast.Name) and x.id == self.vararg]
+            vararg_ok = bool(uses) and all(id(x) in starred and id(x) in in_call for x in uses)
+        self.supported = vararg_ok and not (a.kwarg or a.kwonlyargs) and all(d in ("staticmethod",) for d in decos)
         self.defaults = {}
         nd = len(a.defaults)
         allp = a.posonlyargs + a.args
@@ -308,6 +326,9 @@ class _Inliner:
                 return h, None  # Class.helper(...)
             if isinstance(recv, ast.Attribute) and recv.attr == "__class__":
                 return h, None
+            if isinstance(recv, ast.Name) and name.startswith("__") and h.is_method and cls == h.cls:
+                # `other.__helper(...)` inside the class: the mangled name can only be this class's own helper
+                return h, recv
             return None
         return None
 
@@ -336,6 +357,9 @@ class _Inliner:
         bound = {}
         for p, a in zip(params, args):
             bound[p] = a
+        extras = list(args[len(params):])
+        if extras and not h.vararg:
+            raise _Unsupported("too many arguments")
         for kw in call.keywords:
             if kw.arg not in params:
                 raise _Unsupported("unknown keyword")
@@ -347,6 +371,14 @@ class _Inliner:
                 bound[p] = h.defaults[p]
         reassigned = {x.id for x in ast.walk(h.fn) if isinstance(x, ast.Name) and isinstance(x.ctx, ast.Store)}
         locals_ = _local_names(h.fn)
+        extra_exprs: List[ast.expr] = []
+        for k_, a in enumerate(extras):
+            if _simple_arg(a):
+                extra_exprs.append(a)
+            else:
+                nm = f"{prefix}{h.vararg}{k_}"
+                pre.append(ast.copy_location(ast.Assign(targets=[ast.Name(id=nm, ctx=ast.Store())], value=copy.deepcopy(a)), call))
+                extra_exprs.append(ast.copy_location(ast.Name(id=nm, ctx=ast.Load()), call))
         lambdas: Dict[str, ast.Lambda] = {}
         for p in params:
             a = bound[p]
@@ -365,7 +397,7 @@ class _Inliner:
             # `return helper(...)`: the returns of the helper are the returns of the caller, whatever its control flow
             if any(isinstance(x, (ast.Yield, ast.YieldFrom)) for b in body for x in ast.walk(b)):
                 raise _Unsupported("generator")
-            rn = _Renamer(mapping, prefix, locals_, lambdas)
+            rn = _Renamer(mapping, prefix, locals_, lambdas, (h.vararg, extra_exprs))
             stmts = pre + [rn.visit(b) for b in body]
             if not _definitely_returns(stmts):
                 stmts.append(ast.copy_location(ast.Return(value=ast.Constant(value=None)), call))
@@ -380,7 +412,7 @@ class _Inliner:
         locals_.add(ret)
         has_ret = _contains_return(body)
         new_body, definitely = _elim_returns(body, ret)
-        rn = _Renamer(mapping, prefix, locals_, lambdas)
+        rn = _Renamer(mapping, prefix, locals_, lambdas, (h.vararg, extra_exprs))
         new_body = [rn.visit(s) for s in new_body]
         stmts = pre + new_body
         if has_ret and not definitely:
@@ -457,6 +489,36 @@ class _Inliner:
                                     x.id = tgt
                         hoisted += pre
                         st.value = ast.copy_location(ast.Name(id=tgt, ctx=ast.Load()), st)
+                        st._inl_drop = True
+                        changed = True
+                        continue
+                # `A, B = helper(...)` where every return of the helper is a tuple of that arity: the elements are bound to A, B
+                # directly (no tuple, no alias in the view)
+                if isinstance(st, ast.Assign) and holder is st and attr == "value" and len(st.targets) == 1 and isinstance(st.targets[0], ast.Tuple) and all(isinstance(e_, ast.Name) for e_ in st.targets[0].elts) and isinstance(val, ast.Name) and val.id.startswith("_inl"):
+                    tnames = [e_.id for e_ in st.targets[0].elts]
+                    rets = [a_ for s_ in pre for a_ in ast.walk(s_) if isinstance(a_, ast.Assign) and len(a_.targets) == 1 and isinstance(a_.targets[0], ast.Name) and a_.targets[0].id == val.id]
+                    other_uses = [x for s_ in pre for x in ast.walk(s_) if isinstance(x, ast.Name) and x.id == val.id and not any(x is a_.targets[0] for a_ in rets)]
+                    mentions = any(isinstance(x, ast.Name) and x.id in tnames for s_ in pre for x in ast.walk(s_))
+                    if rets and not other_uses and not mentions and all(isinstance(a_.value, ast.Tuple) and len(a_.value.elts) == len(tnames) for a_ in rets):
+                        def split(stmts_):
+                            out_ = []
+                            for s_ in stmts_:
+                                if any(s_ is a_ for a_ in rets):
+                                    # the elements are temporaries of the inlined body: one assignment per target
+                                    out_ += [ast.copy_location(ast.Assign(targets=[ast.Name(id=t_, ctx=ast.Store())], value=e_), s_) for t_, e_ in zip(tnames, s_.value.elts)]
+                                    continue
+                                for fld in ("body", "orelse", "finalbody"):
+                                    sub_ = getattr(s_, fld, None)
+                                    if isinstance(sub_, list) and sub_ and isinstance(sub_[0], ast.stmt):
+                                        setattr(s_, fld, split(sub_))
+                                if isinstance(s_, ast.Try):
+                                    for h_ in s_.handlers:
+                                        h_.body = split(h_.body)
+                                out_.append(s_)
+                            return out_
+
+                        pre = split(pre)
+                        hoisted += pre
                         st._inl_drop = True
                         changed = True
                         continue
